@@ -37,6 +37,17 @@ def all_bridging(length: int):
             yield [(s, length), (0, e)]
 
 
+def all_gapped(length: int):
+    """ two parts in the order of a location over the origin, [s:s2) + [e1:e) with e < s, at least one of them short of
+        the record's edge: the origin lies in the gap between them """
+    for s in range(1, length):
+        for s2 in range(s + 1, length + 1):
+            for e in range(1, s):
+                for e1 in range(0, e):
+                    if s2 < length or e1 > 0:
+                        yield [(s, s2), (e1, e)]
+
+
 def rand_exons(rng, lo: int, hi: int, count: int, min_exon: int = 1):
     """ count disjoint, ordered, non-adjacent-or-adjacent exons inside [lo, hi) or None """
     room = hi - lo
